@@ -478,6 +478,12 @@ func runCheck(r *propRun) int {
 	for _, x := range cat["trusted"] {
 		assumptions = append(assumptions, "trusted (unverified) contract on repository function: "+x)
 	}
+	for _, x := range cat["observer"] {
+		assumptions = append(assumptions, "function-valued parameter/field called as an observer (no effect on modelled state, arbitrary result): "+x)
+	}
+	for _, x := range cat["summary"] {
+		assumptions = append(assumptions, "un-contracted callee summarised by its inferred write-set (results arbitrary): "+shortFunc(x))
+	}
 	for _, x := range cat["havoc"] {
 		assumptions = append(assumptions, "unmodelled call, results arbitrary and heap forgotten: "+x)
 	}
